@@ -23,7 +23,8 @@ CHECKS = {
               "repetition (induction over expressions); TRUE/FALSE are identities/annihilators as diagrams. The model functions are "
               "the extracted ones run step-wise against the crate on the operands the crate itself produced (long histories in one "
               "process, so the AND memo cache and unique table are warm), and every operand passes the verified checker m_wfb, which "
-              "implies the theorems' hypothesis. The memo cache and complemented edges themselves are not modelled at this level."),
+              "implies the theorems' hypothesis. The memo cache and complemented edges: the crate's recursion on ids (and_i: shortcuts, cache, Edges::map/apply, "
+              "negate, create_node) is modelled and proved to return, for every store and every correct cache, an id denoting m_and of the operands (C02_and_memoised)."),
         design_ref='DESIGN.md section 7 / C02',
         technique='Coq proof (structural induction on diagrams, merge lemma) + step-wise differential correspondence + grid oracle on evaluate()'),
     'C20': dict(
@@ -108,8 +109,9 @@ CHECKS = {
               "bit, create_node's normalisation and reduction): the store invariant is preserved, the arena only grows, existing ids keep their "
               "diagram, and two ids are equal exactly when they show the same diagram - for every reachable store, i.e. whatever was interned "
               "before; every constructor yields well-formed diagrams; a program of marker operations observes the same diagrams and the same "
-              "pattern of equal markers after any two histories (hist_indep). The memoised recursion of and() is abstracted to its L1 meaning "
-              "(unfold / operate / intern) - that part is tied by the step-wise correspondence of C02 on warm caches, not proved. Tie: raw ids through the "
+              "pattern of equal markers after any two histories (hist_indep). Programs use the L1 meaning of each operation (unfold / operate / intern); for and/or "
+              "this abstraction is proved sound against the model of the memoised recursion on ids (C14_and_refines, C14_cache_irrelevant); restrict / simplify / "
+              "complexify on ids are not modelled at L2 (tied by the step-wise correspondence). Tie: raw ids through the "
               "cfg(pep508_rs_verif) hook (id equality <=> equal dumps, id^1 <=> negation, complement bit = model prediction, no new nodes on repetition); "
               "fresh-process runs of the same program alone / after warm-ups / after the same versions under other spellings / permuted, comparing "
               "raw dumps, Display, DNF, evaluate, ==/cmp/hash."),
@@ -128,8 +130,9 @@ CHECKS = {
         text=("Machine-checked proof (Coq): for every typed marker syntax tree in scope (interpretable comparisons; carve-out of the property; in-list members that are "
               "final releases) and every final-release environment X.Y.Z with python_version = X.Y and every extras set, the diagram the parser builds evaluates to "
               "sem508, the direct PEP 508 reading (boolean connectives with dropped operands skipped, PEP 440 release comparison, string order / equality / substring "
-              "in both directions, extras by normalised membership). The text-to-syntax step (quotes, operand order, parentheses, white space, deprecated spellings) "
-              "is the extracted parser model tied to the crate in C06/C07; here: 3 layouts per tree must parse to the same marker, the five evaluation entry points "
+              "in both directions, extras by normalised membership). The text-to-syntax step is proved too (C01_text_accept / C01_text_eval): every marker text derivable "
+              "from the grammar, with any optional white space, redundant parentheses, either quote and operand order, parses to the syntax tree of its derivation; "
+              "deprecated spellings are entries of the keyword table (read from the crate at run time). Tie: 3 layouts per tree must parse to the same marker, the five evaluation entry points "
               "must agree, and evaluate() is compared with an independent Python reading, with the extracted sem508 and with the extracted model diagram."),
         design_ref='DESIGN.md section 7 / C01',
         technique='Coq proof (range semantics, rewrite correctness, induction over syntax) + differential correspondence + independent-reading oracle'),
@@ -168,8 +171,8 @@ CHECKS = {
               "no version / bare specifiers / parenthesised specifiers / `@` URL, optional `;` marker - whose components are individually well-formed (identifiers validate, "
               "each specifier piece is accepted by the PEP 440 oracle and contains no delimiter, the URL text has no blank and is accepted by the URL type, a blank separates a URL "
               "from `;`, the marker text is accepted by the marker parser), the parser returns exactly the derivation's components (normalised name, extras in order, the sorted "
-              "specifier list, URL with verbatim text, marker); the result does not depend on any of the blanks (corollary). The marker sub-parser is a black box in this theorem "
-              "(its typed dispatch is C17, its semantics C01, and/or keyword recognition is tied by the correspondence run). Tie: random derivations x layouts through both URL types: "
+              "specifier list, URL with verbatim text, marker); the result does not depend on any of the blanks (corollary). The marker hypothesis is discharged for every "
+              "marker text derivable from the marker grammar (C07_marker_component, from the marker acceptance theorem). Tie: random derivations x layouts through both URL types: "
               "accepted, components equal to independent expectations (PEP 503 name, VersionSpecifier::from_str per piece, Url::parse, MarkerTree::from_str of a canonical marker "
               "text), all layouts equal, and the extracted parser on every text. `===` inside markers is the open finding F7b."),
         design_ref='DESIGN.md section 7 / C07',
